@@ -885,7 +885,8 @@ def oracle_clauses(case, obs):
             need = cfgmap.get(specs[x[2]][2], [])
             if not all(c in held for c in need):
                 bad.append('nested_model_contexts_not_entered')
-        elif x[0] == 4 and x[3][0] == 0 and x[2] in specs:
+        elif x[0] == 4 and (x[3][0] == 0 or x[3] == [1, 6]) and x[2] in specs:
+            # ([1, 6]: a context's __exit__ raised AFTER the call had been processed - its effect stands)
             apply_registration(cfgmap, specs[x[2]])
             for m_, v_ in cfgmap.items():
                 if list(v_) not in history.setdefault(m_, []):
